@@ -60,4 +60,73 @@ theorem query_clean (tbl : List Method) (htbl : tableClean tbl = true) (fuel : N
           · exact f1.2.2 p hp
         · simp [f2, hdf]
 
+/-! ### frame lemmas for kernel calls and field edits (round 3) -/
+
+theorem applyCall_frame {α : Type} (bs : List (Bind α)) (h : List α) (l : Nat)
+    (hl : ∀ b ∈ bs, b.written = true → b.loc ≠ l) : (applyCall h bs)[l]? = h[l]? := by
+  unfold applyCall
+  induction bs generalizing h with
+  | nil => rfl
+  | cons b t ih =>
+    simp only [List.foldl_cons]
+    rw [ih _ (fun b' hb' => hl b' (List.mem_cons_of_mem _ hb'))]
+    by_cases hw : b.written = true
+    · have := hl b (List.mem_cons_self) hw
+      simp [hw, List.getElem?_set_ne this]
+    · simp [hw]
+
+theorem applyCall_length {α : Type} (bs : List (Bind α)) (h : List α) :
+    (applyCall h bs).length = h.length := by
+  unfold applyCall
+  induction bs generalizing h with
+  | nil => rfl
+  | cons b t ih =>
+    simp only [List.foldl_cons]
+    rw [ih]
+    split <;> simp
+
+theorem take_eq_of_getElem? {α : Type} (a b : List α) (n : Nat)
+    (h : ∀ l, l < n → a[l]? = b[l]?) : a.take n = b.take n := by
+  apply List.ext_getElem?
+  intro i
+  by_cases hi : i < n
+  · simp [hi, h i hi]
+  · simp [List.getElem?_take, hi]
+
+/-- a clean call site stores only into positively fresh objects -/
+theorem callBinds_written_fresh {α : Type} (ks : List (String × List KParam)) (c : KCall)
+    (hc : c.args.all (argClean ks c.kernel) = true) (env : KArg → Nat) (out : KArg → α)
+    (b : Bind α) (hb : b ∈ callBinds ks c env out) (hw : b.written = true) :
+    ∃ a ∈ c.args, a.prov = .fresh ∧ b.loc = env a := by
+  simp only [callBinds, List.mem_map] at hb
+  obtain ⟨a, ha, rfl⟩ := hb
+  refine ⟨a, ha, ?_, rfl⟩
+  have h1 := List.all_eq_true.mp hc a ha
+  simp only [argClean, Bool.or_eq_true, Bool.not_eq_true', decide_eq_true_eq] at h1
+  rcases h1 with h1 | h1
+  · simp only at hw; rw [h1] at hw; exact absurd hw (by decide)
+  · exact h1
+
+theorem editFields_frame {α : Type} (n : Nat) (aliases : List (String × Nat)) (own : String → Nat)
+    (edits : List (String × α)) (h : List α) (l : Nat) (hl : l < n)
+    (hed : ∀ e ∈ edits, aliases.lookup e.1 = none) :
+    (editFields n aliases own h edits)[l]? = h[l]? := by
+  unfold editFields
+  induction edits generalizing h with
+  | nil => rfl
+  | cons e t ih =>
+    simp only [List.foldl_cons]
+    rw [ih _ (fun e' he' => hed e' (List.mem_cons_of_mem _ he'))]
+    have hne : fieldLoc n aliases own e.1 ≠ l := by
+      simp only [fieldLoc, hed e (List.mem_cons_self)]; omega
+    exact List.getElem?_set_ne hne
+
+theorem editFields_length {α : Type} (n : Nat) (aliases : List (String × Nat)) (own : String → Nat)
+    (edits : List (String × α)) (h : List α) :
+    (editFields n aliases own h edits).length = h.length := by
+  unfold editFields
+  induction edits generalizing h with
+  | nil => rfl
+  | cons e t ih => simp only [List.foldl_cons]; rw [ih]; simp
+
 end Pyunicorn.Pure
